@@ -1,7 +1,7 @@
 /-
   Model of geomdl/fitting.py: parametrisation (chord lengths / their square roots are inputs: they
   are square roots in the code), averaged knot vectors (Eq. 9.8, 9.68/9.69), the collocation
-  matrix, global curve / surface interpolation and least-squares curve approximation, on top of the
+  matrix, global curve / surface interpolation and least-squares curve / surface approximation, on top of the
   LU model of geomdl/linalg.py.
 -/
 import NurbsVerif.Model.Basis
@@ -105,6 +105,58 @@ def approximateCurve (p : Nat) (pts : List (List K)) (cds : List K) (nc : Nat) (
   match Lin.luSolve NTN R with
   | none => none
   | some x => some (kv, [p0] ++ x ++ [pm])
+
+/-- One least-squares pass (The NURBS Book Eqs. 9.63–9.67) as coded in `fitting.approximate_surface`
+    (and, line by line, in `approximate_curve`) on ONE line of data points `pts` with parameters `uk`,
+    knot function `U` over `m` knots, `nc` control points, `dim` coordinates: the first and the last
+    data point are copied, the `nc − 2` interior control points come from `lu_solve` on `NᵀN`
+    (`none` = the solver raised).  The code factorises `NᵀN` once per direction and substitutes per
+    line and coordinate; the result is the same list. -/
+def lsqPass (p : Nat) (U : Nat → K) (m : Nat) (uk : List K) (pts : List (List K)) (nc dim : Nat) :
+    Option (List (List K)) :=
+  let nd := pts.length
+  let N : List (List K) := (List.range' 1 (nd - 2)).map (fun i =>
+    (List.range' 1 (nc - 2)).map (fun j => basisFunOne p U m j (uk.getD i 0)))
+  let NT := Lin.matrixTranspose N
+  let NTN := Lin.matrixMultiply NT N
+  let p0 := pts.headD []
+  let pm := pts.getLastD []
+  let rk : List (List K) := (List.range' 1 (nd - 2)).map (fun i =>
+    let n0 := basisFunOne p U m 0 (uk.getD i 0)
+    let nn := basisFunOne p U m (nc - 1) (uk.getD i 0)
+    (List.range dim).map (fun c => (pts.getD i []).getD c 0 - p0.getD c 0 * n0 - pm.getD c 0 * nn))
+  let R : List (List K) := (List.range' 1 (nc - 2)).map (fun i =>
+    (List.range dim).map (fun c =>
+      sumL ((List.range (nd - 2)).map (fun idx => (rk.getD idx []).getD c 0 * basisFunOne p U m i (uk.getD (idx + 1) 0)))))
+  match Lin.luSolve NTN R with
+  | none => none
+  | some x => some ([p0] ++ x ++ [pm])
+
+/-- `fitting.approximate_surface` (A9.7 as coded): parameters by `compute_params_surface` (chord lengths are
+    inputs), `compute_knot_vector2` in both directions, then a least-squares pass in the u direction for
+    each of the `sv` data columns (intermediate points `ctrlpts_tmp[j + sv·i]`, `i < ncu`), then a pass
+    in the v direction for each of the `ncu` lines of intermediate points (`ctrlpts[j + ncv·i]`).
+    `dim = len(points[0])`.  `none` = a solver call raised. -/
+def approximateSurface (pu pv su sv : Nat) (pts : List (List K)) (cdsU cdsV : List (List K))
+    (ncu ncv : Nat) (floorK : K → Nat) : Option (List K × List K × List (List K)) :=
+  let dim := (pts.headD []).length
+  let uk := averageParams cdsU su
+  let vl := averageParams cdsV sv
+  let kvu := computeKnotVector2 pu su ncu uk floorK
+  let kvv := computeKnotVector2 pv sv ncv vl floorK
+  -- u direction: for each data column j, fit the points `points[j + sv*i]`, `i < su`
+  let passU := Lin.allSome ((List.range sv).map (fun j =>
+    lsqPass pu (fnOf kvu) kvu.length uk ((List.range su).map (fun i => pts.getD (j + sv * i) [])) ncu dim))
+  match passU with
+  | none => none
+  | some cols =>
+    -- ctrlpts_tmp[j + sv*i] = i-th control point of column j
+    let tmp : List (List K) := (List.range (ncu * sv)).map (fun k => (cols.getD (k % sv) []).getD (k / sv) [])
+    let passV := Lin.allSome ((List.range ncu).map (fun i =>
+      lsqPass pv (fnOf kvv) kvv.length vl ((List.range sv).map (fun j => tmp.getD (j + sv * i) [])) ncv dim))
+    match passV with
+    | none => none
+    | some rows => some (kvu, kvv, rows.flatten)         -- ctrlpts[j + ncv*i]
 
 end
 end Geomdl
